@@ -20,6 +20,7 @@ import (
 type c17Sched struct {
 	name   string
 	ticks  int
+	twoExt bool // two concurrent extensions of a row that is NOT expired: both must count
 	extend bool
 	insert bool
 	update bool
@@ -33,6 +34,7 @@ func c17SchedScenarios() []c17Sched {
 		{name: "pass||insert-with-ttl||unrelated-update", ticks: 1, insert: true, update: true},
 		{name: "2-passes||extend||insert-with-ttl", ticks: 2, extend: true, insert: true},
 		{name: "pass||setTTL(0)", ticks: 1, setTTL: true},
+		{name: "extend||extend||pass", ticks: 1, twoExt: true},
 	}
 }
 
@@ -46,6 +48,15 @@ func (sc c17Sched) instance() *eng.SchedInstance {
 	w.Sched = true
 	w.Commits, w.Emitters = nil, nil
 	sw := &sworld{w: w}
+	if sc.twoExt {
+		// row 2 gets a deadline in the future; two transactions extend it concurrently
+		w.Sched = false
+		w.Txn([]model.Act{{Op: "put", Off: 2, W: []model.Write{ttl(5)}}}, false)
+		w.Sched = true
+		w.Commits, w.Emitters = nil, nil
+		sw.add("extend(row2,+1u)", []model.Act{{Op: "put", Off: 2, W: []model.Write{{Extend: true, TTL: 1 * c17U}}}}, false)
+		sw.add("extend(row2,+2u)", []model.Act{{Op: "put", Off: 2, W: []model.Write{{Extend: true, TTL: 2 * c17U}}}}, false)
+	}
 	if sc.extend {
 		sw.add("extend(row0,+5u)", []model.Act{{Op: "put", Off: 0, W: []model.Write{{Extend: true, TTL: 5 * c17U}}}}, false)
 	}
@@ -98,7 +109,20 @@ func (sc c17Sched) instance() *eng.SchedInstance {
 			}
 			outcome := fmt.Sprintf("live=%v fresh=%v cleanup-commits=%d protect-before-cleanup=%v", sortedLive(live), sortedLive(fresh), cleanupCommits, protectedBefore)
 			if !live[2] {
-				vs = append(vs, eng.Violation{Assert: "expire/no-ttl-kept", Witness: "a row without a time-to-live was removed", Detail: outcome})
+				vs = append(vs, eng.Violation{Assert: "expire/no-ttl-kept", Witness: "a row without a time-to-live (or with a future deadline) was removed", Detail: outcome})
+			}
+			if sc.twoExt && live[2] {
+				// deadline = (T0+2u) + 5u + 1u + 2u
+				want := model.T0.Add(10 * c17U)
+				var got time.Time
+				w.C.Query(func(txn *column.Txn) error {
+					return txn.QueryAt(2, func(column.Row) error { got, _ = txn.TTL().ExpiresAt(); return nil })
+				})
+				outcome += fmt.Sprintf(" row2-deadline=T0+%v", got.Sub(model.T0))
+				if !got.Equal(want) {
+					vs = append(vs, eng.Violation{Assert: "ttl/extensions-add-up", Witness: "concurrent extensions of one row do not add up",
+						Detail: fmt.Sprintf("row 2: deadline T0+%v after extend(+1u) || extend(+2u) on T0+7u, want T0+%v", got.Sub(model.T0), want.Sub(model.T0))})
+				}
 			}
 			if (sc.extend || sc.setTTL) && !live[0] && !fresh[0] {
 				// row 0 is gone: legitimate only if the cleanup's delete was applied before
